@@ -43,10 +43,15 @@ def parse(text):
             i += 1
             continue
         m = FN_RE.match(ln)
-        if not m:
+        mc = re.match(r"^const (.+?): (.+) = \{$", ln) if not m else None
+        if not m and not mc:
             i += 1
             continue
-        name, args_s, ret = m.group(1), m.group(2), m.group(3)
+        if mc:
+            # a constant with a body (arrays, tuples, structs): kept as a zero-argument function, evaluated on demand
+            name, args_s, ret = "const " + mc.group(1), "", mc.group(2)
+        else:
+            name, args_s, ret = m.group(1), m.group(2), m.group(3)
         args = []
         for a in split_args(args_s):
             loc, ty = a.split(":", 1)
